@@ -149,4 +149,22 @@ func VH_C01Kernel(a []int) {
 		sym.Assert(got2.Has(int32(x)) == want[x], "C01", "ordinals from replicas and slots equal the desired set")
 	}
 	sym.Assert(int32(got2.Len()) == r, "C01", "exactly r ordinals (replicas+slots variant)")
+
+	// the helpers are functions of their arguments: after all the calls above,
+	// the same annotation text (on another object) still decodes to the same
+	// set and gives the desired set of a larger replica count
+	obj2 := vObj(obj.GetAnnotations())
+	again := GetDeleteSlots(obj2)
+	for x := 0; x < n; x++ {
+		sym.Assert(again.Has(int32(x)) == S.has(int32(x)), "C01", "decoding does not depend on earlier calls")
+	}
+	for _, v := range S.vals {
+		sym.Assert(again.Has(v), "C01", "decoding does not depend on earlier calls")
+	}
+	wantR := vDesired(int32(R), S, n)
+	gotR := GetPodOrdinals(int32(R), obj2)
+	for x := 0; x < n; x++ {
+		sym.Assert(gotR.Has(int32(x)) == wantR[x], "C01", "pod ordinals at a larger replica count do not depend on earlier calls")
+	}
+	sym.Assert(gotR.Len() == R, "C01", "pod ordinals at a larger replica count do not depend on earlier calls")
 }
